@@ -32,7 +32,7 @@ def run(ctx):
         "forward address {none, reachable, refused} for every list; oracle: the application is served by the forward target if reachable, else by the "
         "first good upstream in list order, else its connection is closed; with a reachable forward no upstream is contacted. Silent upstreams: "
         "violation only if the client's Connect call on the silent entry is still running after >= 95 s without the next upstream being tried and "
-        "the stall rule holds. (B) m in {2,8,32} local connections at once with a sleep inside the client's connect lock, then two more: exactly one "
+        "the stall rule holds. (B) m in {2,8,32} local connections at once with a sleep inside the client's connect lock, a connection for a channel no server offers (refused), then two more: exactly one "
         "physical connection at the relay and keyed data verified on every one. (C) loss histories on tcp / tcp+tls / ws: relay cut by FIN or RST "
         "while idle / in the middle of a transfer / inside an open (hook between lock release and stream open); server restart on the same "
         "address (listener gone + connections reset + new server), restart with an attempt while down, server gone for good with a second upstream "
